@@ -47,11 +47,14 @@ class AQTTargetGateset(cirq.TwoQubitCompilationTargetGateset):
         )
 
     def _decompose_single_qubit_operation(self, op: cirq.Operation, _: int) -> DecomposeResult:
-        # unwrap tagged and circuit operations to get the actual operation
+        # unwrap tagged and circuit operations to get the actual operation; a circuit operation
+        # stands for its body only if it is a plain wrapper (no repetitions, maps or resolver)
         opu = op.untagged
         opu = (
             next(opu.circuit.all_operations()).untagged
-            if isinstance(opu, cirq.CircuitOperation) and len(opu.circuit) == 1
+            if isinstance(opu, cirq.CircuitOperation)
+            and opu == cirq.CircuitOperation(opu.circuit)
+            and len(opu.circuit) == 1
             else opu
         )
         if isinstance(opu.gate, cirq.HPowGate) and opu.gate.exponent == 1:
